@@ -1317,6 +1317,13 @@ def run(ctx):
                  'hypotheses of its theorem; after each history the last target is requested once more and must be accepted.')
     ctx.rule += (' Clock-relative children (`self.t + d`, the docstring idiom; style clockrel) are modelled by loopC/stepOpC. '
                  'Generated histories whose dry-run population reaches %d executed callbacks are drawn again.' % POPULATION_CAP)
+    ctx.rule += (' Round 6: style exact - one exact NON-float time axis per history (Python int / np.int64 ticks around 1.76e18, '
+                 'Fraction, np.longdouble on a 2^-58 grid, Decimal): times are exact rationals, handed over as objects of the axis, '
+                 'clock / queue / integrate arguments read back exactly and compared exactly with oracle and model; style reent - '
+                 'callbacks that call evolve_until themselves (nested target below the clock, inside, beyond the outer target), '
+                 'compared with Lean evolveUntilR, oracle = the clauses the code keeps; raising at once also with clock-relative '
+                 'children (loopXC); histories whose callbacks schedule only larger ids are re-run on the fuel of terminates_if_dag; '
+                 'add_callback raising on a legal argument is a violation.')
     ctx.extra['population_cap'] = POPULATION_CAP
     ctx.assumptions += ['heapq pops the least (time, counter) tuple',
                         'float subtraction of the generated dyadic / grid times is exact; for the decimal style only the clocks are '
